@@ -98,19 +98,42 @@ fn panic_msg(e: &Box<dyn std::any::Any + Send>) -> String {
     }
 }
 
+// As in `run_batch`, an optional per-case limit (milliseconds, third
+// command-line argument) makes a watchdog thread report a case that doesn't
+// finish as `TIMEOUT` and end the process.
 fn batch<F>(f: F)
 where
     F: Fn(&str, &mut String) + panic::RefUnwindSafe,
 {
     panic::set_hook(Box::new(|_| {}));
+    let limit_ms: u64 = std::env::args()
+        .nth(2)
+        .and_then(|s| s.parse().ok())
+        .unwrap_or(0);
+    let progress = Arc::new(Mutex::new(std::time::Instant::now()));
+    if limit_ms > 0 {
+        let progress = progress.clone();
+        std::thread::spawn(move || loop {
+            std::thread::sleep(std::time::Duration::from_millis(25));
+            let t0 = *progress.lock().unwrap();
+            if t0.elapsed().as_millis() as u64 > limit_ms {
+                // The main thread holds no lock on stdout while a case is
+                // being processed (output is written after each case).
+                let mut out = std::io::stdout();
+                let _ = out.write_all(b"TIMEOUT\nEND\n");
+                let _ = out.flush();
+                std::process::exit(0);
+            }
+        });
+    }
     let stdin = std::io::stdin();
-    let stdout = std::io::stdout();
-    let mut w = std::io::BufWriter::new(stdout.lock());
+    let mut w = std::io::stdout();
     for line in stdin.lock().lines() {
         let line = match line {
             Ok(l) => l,
             Err(_) => break,
         };
+        *progress.lock().unwrap() = std::time::Instant::now();
         let mut out = String::new();
         match unhex(&line).map(String::from_utf8) {
             Some(Ok(src)) => {
@@ -132,8 +155,8 @@ where
         }
         out += "END\n";
         let _ = w.write_all(out.as_bytes());
+        let _ = w.flush();
     }
-    let _ = w.flush();
 }
 
 fn loc(l: &(usize, usize)) -> String {
